@@ -46,7 +46,9 @@ partial def toEvents (own : List (Nat Ã— Nat)) : List Line â†’ List (Option Ev Ã
     | "stop.cas" | "stop.held" | "stop.rm_check" | "stop.pre_exec" | "stop.post_exec" => go rest acc
     | "stop.load" | "stop.casfail" | "stop.reload" =>
       if l.b == 2 && stopBitSet l.a then push (.stSeen t) else go rest acc
-    | "inv.swaitp" => push (.inv t .swait)
+    | "inv.swaitp" => push (.inv t (.swait false))
+    | "inv.stwaitp" => push (.inv t (.swait true))
+    | "cva.stop2" => push (.stop2 t (l.a != 0))
     | "inv.stop" => push (.inv t .stop)
     | "cva.stop0" => push (.stop0 t (l.a != 0))
     | "cva.stop1" => push (.stop1 t (l.a != 0))
@@ -134,7 +136,8 @@ structure Mon where
   inHand : Nat â†’ Bool := fun _ => false         -- â€¦ dequeued by request_stop, finished store not yet done
 
 def isWaitOp (s : String) : Bool :=
-  s == "inv.wait" || s == "inv.waitp" || s == "inv.twait" || s == "inv.twaitp" || s == "inv.swaitp"
+  s == "inv.wait" || s == "inv.waitp" || s == "inv.twait" || s == "inv.twaitp" || s == "inv.swaitp" ||
+  s == "inv.stwaitp"
 
 def uAcq (m : Mon) (t : Nat) : Mon :=
   let m := match m.uOwner with
@@ -152,7 +155,7 @@ def monStep (n : Nat) (m : Mon) (l : Line) : Mon :=
   match l.site with
   | "inv.lock" | "inv.unlock" | "inv.set" | "inv.n1" | "inv.nall" | "inv.stop" =>
     { m with curOp := upd m.curOp t l.site, inWait := upd m.inWait t false }
-  | "inv.wait" | "inv.waitp" | "inv.twait" | "inv.twaitp" | "inv.swaitp" =>
+  | "inv.wait" | "inv.waitp" | "inv.twait" | "inv.twaitp" | "inv.swaitp" | "inv.stwaitp" =>
     let m := if m.uOwner != some t then
       { m with viol := s!"thread {t} called wait without owning the user lock (harness error)" :: m.viol } else m
     { m with curOp := upd m.curOp t l.site, inWait := upd m.inWait t true,
@@ -191,13 +194,13 @@ def monStep (n : Nat) (m : Mon) (l : Line) : Mon :=
       [s!"thread {t}: timed wait reported timeout although it was notified before it re-examined its entry"] else []
     let v5 := if op == "inv.twait" && r != 0 && r != 1 then
       [s!"thread {t}: timed wait returned cv_status::error"] else []
-    let v6 := if op == "inv.swaitp" && (r != 0) != m.flag then
+    let v6 := if (op == "inv.swaitp" || op == "inv.stwaitp") && (r != 0) != m.flag then
       [s!"thread {t}: stop-token wait returned {r} but the predicate is {m.flag}"] else []
     let v7 := if op == "inv.swaitp" && r == 0 && !m.stopWon then
       [s!"thread {t}: stop-token wait returned false although stop was never requested"] else []
-    let v8 := if op == "inv.swaitp" && m.linked t then
+    let v8 := if (op == "inv.swaitp" || op == "inv.stwaitp") && m.linked t then
       [s!"thread {t}: stop-token wait returned with its stop callback still registered (dangling callback)"] else []
-    let v9 := if op == "inv.swaitp" && m.inHand t then
+    let v9 := if (op == "inv.swaitp" || op == "inv.stwaitp") && m.inHand t then
       [s!"thread {t}: stop-token wait returned while request_stop was still running its stop callback (dangling callback)"] else []
     { m with viol := v0 ++ v1 ++ v2 ++ v3 ++ v4 ++ v5 ++ v6 ++ v7 ++ v8 ++ v9 ++ m.viol, inWait := upd m.inWait t false,
              owed := upd m.owed t [], stopRet := m.stopRet || op == "inv.stop" }
